@@ -6,7 +6,7 @@ Proofs/RxAList.lean — association-list facts used by the regex-builder proofs:
 import AutomataVerif.Proofs.Basic
 import AutomataVerif.Model.RxBuilder
 
-namespace AV
+namespace AV.Rx
 
 set_option linter.unusedSectionVars false
 
@@ -89,12 +89,12 @@ theorem nodup_akeys_ainsert {k : κ} {v : β} {d : List (κ × β)} (hd : (akeys
 /-! ### dict.update -/
 
 theorem aupdate_cons (d1 : List (κ × β)) (kv : κ × β) (d2 : List (κ × β)) :
-    Rx.aupdate d1 (kv :: d2) = Rx.aupdate (ainsert kv.1 kv.2 d1) d2 := rfl
+    aupdate d1 (kv :: d2) = aupdate (ainsert kv.1 kv.2 d1) d2 := rfl
 
-@[simp] theorem aupdate_nil (d1 : List (κ × β)) : Rx.aupdate d1 [] = d1 := rfl
+@[simp] theorem aupdate_nil (d1 : List (κ × β)) : aupdate d1 [] = d1 := rfl
 
 theorem mem_akeys_aupdate {k : κ} {d1 d2 : List (κ × β)} :
-    k ∈ akeys (Rx.aupdate d1 d2) ↔ k ∈ akeys d1 ∨ k ∈ akeys d2 := by
+    k ∈ akeys (aupdate d1 d2) ↔ k ∈ akeys d1 ∨ k ∈ akeys d2 := by
   induction d2 generalizing d1 with
   | nil => simp [akeys]
   | cons kv t ih =>
@@ -111,7 +111,7 @@ theorem mem_akeys_aupdate {k : κ} {d1 d2 : List (κ × β)} :
       · exact Or.inr h
 
 theorem nodup_akeys_aupdate {d1 d2 : List (κ × β)} (hd : (akeys d1).Nodup) :
-    (akeys (Rx.aupdate d1 d2)).Nodup := by
+    (akeys (aupdate d1 d2)).Nodup := by
   induction d2 generalizing d1 with
   | nil => simpa
   | cons kv t ih =>
@@ -120,7 +120,7 @@ theorem nodup_akeys_aupdate {d1 d2 : List (κ × β)} (hd : (akeys d1).Nodup) :
 
 /-- Lookup after `d1.update(d2)` when `d2` has no repeated key. -/
 theorem alookup_aupdate {k : κ} {d1 d2 : List (κ × β)} (hd : (akeys d2).Nodup) :
-    alookup k (Rx.aupdate d1 d2) =
+    alookup k (aupdate d1 d2) =
       match alookup k d2 with
       | some v => some v
       | none => alookup k d1 := by
@@ -139,7 +139,7 @@ theorem alookup_aupdate {k : κ} {d1 d2 : List (κ × β)} (hd : (akeys d2).Nodu
       simp [this]
     · simp [h]
 
-end AV
+end AV.Rx
 
 namespace AV.Rx
 
